@@ -57,8 +57,40 @@ func c02Opts() genOpts {
 // the document under test, built along one of three routes (chosen by the document itself, so a
 // case is reproducible): builder API with fresh leaves, FromMap, FromReader (YAML text) — the
 // decoders share one nil leaf among all nulls
+// builder route that attaches equal composite values as one shared node instance
+func sharedNode(v any, memo map[string]dom.Node) dom.Node {
+	switch x := v.(type) {
+	case map[string]any:
+		key := fmt.Sprintf("%#v", v)
+		if n, ok := memo[key]; ok && len(x) > 0 {
+			return n
+		}
+		c := dom.Builder().Container()
+		for _, k := range sortedKeys(x) {
+			c.AddValue(k, sharedNode(x[k], memo))
+		}
+		memo[key] = c
+		return c
+	case []any:
+		key := fmt.Sprintf("%#v", v)
+		if n, ok := memo[key]; ok && len(x) > 0 {
+			return n
+		}
+		l := dom.ListNode()
+		for _, it := range x {
+			l.Append(sharedNode(it, memo))
+		}
+		memo[key] = l
+		return l
+	default:
+		return dom.LeafNode(v)
+	}
+}
+
 func c02Build(doc map[string]any) dom.ContainerBuilder {
-	switch len(fmt.Sprint(doc)) % 3 {
+	switch len(fmt.Sprint(doc)) % 4 {
+	case 3:
+		return sharedNode(doc, map[string]dom.Node{}).(dom.ContainerBuilder)
 	case 1:
 		return dom.Builder().FromMap(doc)
 	case 2:
@@ -295,8 +327,43 @@ func genNested(r *rand.Rand, o genOpts, depth int) any {
 	return l
 }
 
+// a chain of containers 5-9 levels deep with siblings (a leaf and a small container) at every level
+func c02Deep(r *rand.Rand, o genOpts) any {
+	var cur any = map[string]any{"size": r.Intn(9), "name": "leaf"}
+	for lvl := 5 + r.Intn(5); lvl >= 1; lvl-- {
+		m := map[string]any{o.keys[r.Intn(len(o.keys))] + fmt.Sprint(lvl): cur}
+		if r.Intn(3) != 0 {
+			m["s"] = r.Intn(100)
+		}
+		if r.Intn(2) == 0 {
+			m["t"] = map[string]any{"size": lvl, "u": map[string]any{"size": "x"}}
+		}
+		if r.Intn(6) == 0 {
+			m["l"] = []any{cur, lvl}
+		}
+		cur = m
+	}
+	return cur
+}
+
 func c02Doc(r *rand.Rand, o genOpts) map[string]any {
 	m := genDoc(r, o)
+	if r.Intn(4) == 0 {
+		m[o.keys[r.Intn(len(o.keys))]] = c02Deep(r, o)
+	}
+	if r.Intn(6) == 0 { // more than ten items: "x[10]" sorts before "x[2]"
+		n := 11 + r.Intn(3)
+		l := make([]any, n)
+		for i := range l {
+			l[i] = i
+		}
+		m[o.keys[r.Intn(len(o.keys))]] = l
+	}
+	if r.Intn(5) == 0 { // one composite value under two positions (attached as ONE instance by route 3)
+		sub := genNested(r, o, 1)
+		m["dupA"] = map[string]any{"x": sub, "k": 1}
+		m["dupB"] = map[string]any{"y": sub}
+	}
 	if r.Intn(2) == 0 {
 		m[o.keys[r.Intn(len(o.keys))]] = genNested(r, o, 0)
 	}
@@ -309,7 +376,7 @@ func c02Doc(r *rand.Rand, o genOpts) map[string]any {
 func init() {
 	register(&Prop{
 		ID:   "C02",
-		Rule: "documents with path-safe keys (incl. all-digit keys), lists in lists to depth 4, lists of containers, mixed; each document built along one of three routes (builder API, FromMap, FromReader of its YAML text). kinds: flatten (whole Flatten map as a set + count of scalar positions), lookup (a flattened path: must be pointer-identical to the flattened leaf), lookup-other (prefixes / neighbours / junk paths), pointer (xform.PointerFromPropPathString(p).Eval), parsepath (segments; also adversarial raw strings), search (equals-value / is-string / always; as a set), rebuild (AddValueAt of every flattened pair in a random permutation into an empty document; documents in which every list item contains a scalar). Non-trivial: document has a list inside a list. Distinct by Gallina term.",
+		Rule: "documents with path-safe keys (incl. all-digit keys), lists in lists to depth 4, lists of containers, mixed; each document built along one of four routes (builder API, FromMap, FromReader of its YAML text, builder with equal composite values attached as one shared instance); a quarter of the documents contain a 5-9 level chain with siblings at every level, a sixth a list of 11-13 items. kinds: flatten (whole Flatten map as a set + count of scalar positions), lookup (a flattened path: must be pointer-identical to the flattened leaf), lookup-other (prefixes / neighbours / junk paths), pointer (xform.PointerFromPropPathString(p).Eval), parsepath (segments; also adversarial raw strings), search (equals-value / is-string / always; as a set), rebuild (AddValueAt of every flattened pair in a random permutation into an empty document; documents in which every list item contains a scalar). Non-trivial: document has a list inside a list. Distinct by Gallina term.",
 		Corpus: func() []Case {
 			r := rand.New(rand.NewSource(5))
 			d1 := map[string]any{"a": []any{[]any{1, 2}, []any{3}}}
